@@ -8,6 +8,32 @@ import fnmatch, json, os, random, re, subprocess, tempfile, time, shutil
 from common import *
 
 
+def pike_crash(out):
+    """'fatal error: ...' / 'panic: ...' of the runner process, attributed to pike when, walking up the crashing goroutine's
+    stack, a frame of pike comes before any frame of the harness (frames of the runtime, the standard library and third-party
+    libraries in between are what pike called)"""
+    m = re.search(r'^(fatal error: [^\n]+|panic: [^\n]+)', out, re.M)
+    if not m:
+        return None
+    tail = out[m.start():]
+    started = False
+    for line in tail.splitlines()[1:120]:
+        line = line.strip()
+        if line.startswith('goroutine '):
+            if started:
+                break
+            started = True
+            continue
+        if not line or line.startswith('[') or line.startswith('/') or line.startswith('created by'):
+            continue
+        fn = line.split('(')[0]
+        if fn.startswith('github.com/vicanso/pike/'):
+            return m.group(1) + ' in ' + fn
+        if fn.startswith('pikeverif/') or fn.startswith('main.'):
+            return None
+    return None
+
+
 def run(pid, tier, spec, replay_file=None, write=True, clear=True):
     t0 = time.time()
     if not replay_file and clear:
@@ -45,7 +71,25 @@ def run(pid, tier, spec, replay_file=None, write=True, clear=True):
         p = subprocess.run([harness, 'cases', '-kind', kind, '-in', cases_path, '-out', obs_path], env=env,
                            stdout=subprocess.PIPE, stderr=subprocess.STDOUT, text=True, timeout=spec.get('run_timeout', 900))
         if p.returncode != 0 or not os.path.exists(obs_path):
-            raise Infra('case runner failed:\n' + p.stdout[-3000:])
+            crash = pike_crash(p.stdout)
+            if crash:
+                # the runner process died inside pike's own code (fatal error / panic whose first frames are pike's):
+                # that is behaviour of the real code, reported as such; anything else is an infrastructure failure
+                path = save_replay(pid, '%s-s%d-crash' % (spec['module'], seed()),
+                                   {'property': pid, 'module': spec['module'], 'signature': 'crash: ' + crash,
+                                    'cases': [json.loads(x) for x in open(cases_path).read().splitlines()][:2000],
+                                    'output': p.stdout[-6000:]})
+                print('VIOLATION property=%s replay=%s' % (pid, path))
+                log('  pike crashed while the cases were run: %s' % crash)
+                cov = {'cases_enumerated': ncases, 'evaluations': 0, 'distinct_nontrivial': 0, 'exhaustive': False,
+                       'rule': spec.get('rule', ''), 'samples': [{'crash': crash}], 'observations_rejected': 0, 'known_findings_hit': [],
+                       'explanation': 'the case runner crashed inside pike'}
+                if not write:
+                    return 1, cov
+                write_evidence(pid, tier, 'model_checking', cov, time.time() - t0, 1, spec.get('assumptions', []))
+                return 1
+            m0 = re.search(r'^(fatal error: [^\n]+|panic: [^\n]+)', p.stdout, re.M)
+            raise Infra('case runner failed%s:\n%s' % ((' (' + m0.group(1) + ')') if m0 else '', (p.stdout[m0.start():m0.start() + 1500] if m0 else '') + '\n...\n' + p.stdout[-1500:]))
         obs = open(obs_path).read().splitlines()
         code, out = tlc(mod, cfg=mod + '_check.cfg', env=dict({'OBS': obs_path, 'TIER': tier}, **spec.get('env', {})), workers=1, timeout=3000,
                         javaopts=['-Xss256m'])
